@@ -14,12 +14,23 @@ from eaopack.basic_classes import Timegrid, Node
 from . import timeline as tl
 
 
+def _wall_ok(ts, tz):
+    """naive wall time of the aware stamp ts denotes the same instant again (not ambiguous / missing)"""
+    try:
+        return ts.tz_localize(None).tz_localize(tz) == ts
+    except Exception:
+        return False
+
+
 def build_grid(g):
     start = pd.Timestamp(g["start"]).to_pydatetime()
     if "end" in g:
         end = pd.Timestamp(g["end"]).to_pydatetime()
     else:
         e = tl.end(g)
+        if e.tzinfo is not None and not _wall_ok(e, g["tz"]):
+            # wall time of the end is ambiguous (autumn DST hour): hand over zone-aware stamps
+            return Timegrid(tl.point(g, 0), e, freq=g["freq"], main_time_unit=g["mtu"], timezone=g.get("tz"))
         end = (e.tz_localize(None) if e.tzinfo is not None else e).to_pydatetime()
     return Timegrid(start, end, freq=g["freq"], main_time_unit=g["mtu"], timezone=g.get("tz"))
 
